@@ -54,8 +54,7 @@ Definition cmp_ops (t : token) : option binop :=
 (* does a comparison operator start here? *)
 Definition cmp_start (ts : toks) : bool :=
   match ts with
-  | TNot :: _ => true
-  | t :: _ => match cmp_ops t with Some _ => true | None => false end
+  | t :: _ => tok_is_not t || match cmp_ops t with Some _ => true | None => false end
   | [] => false
   end.
 
@@ -89,17 +88,19 @@ Section Strat.
   (* Comparison = BitOr [CmpOp BitOr], not associative *)
   Definition g_cmp_tail (x : expr) (ts : toks) : pres :=
     match ts with
-    | TNot :: rest =>
-      match rest with
-      | TIn :: rest' =>
-        '(y, r) <- g_bitor rest' ;; if cmp_start r then Err 2 else Ok (EOp x NotIn y, r)
-      | _ => Err 1        (* after an operand `not` can only start `not in` *)
-      end
     | t :: rest =>
-      match cmp_ops t with
-      | Some op => '(y, r) <- g_bitor rest ;; if cmp_start r then Err 2 else Ok (EOp x op y, r)
-      | None => Ok (x, ts)
-      end
+      if tok_is_not t then
+        match rest with
+        | t2 :: rest' =>
+          if tok_is_in t2 then '(y, r) <- g_bitor rest' ;; if cmp_start r then Err 2 else Ok (EOp x NotIn y, r)
+          else Err 1        (* after an operand `not` can only start `not in` *)
+        | [] => Err 1
+        end
+      else
+        match cmp_ops t with
+        | Some op => '(y, r) <- g_bitor rest ;; if cmp_start r then Err 2 else Ok (EOp x op y, r)
+        | None => Ok (x, ts)
+        end
     | [] => Ok (x, ts)
     end.
   Definition g_comparison (ts : toks) : pres := '(x, r) <- g_bitor ts ;; g_cmp_tail x r.
@@ -110,8 +111,8 @@ Section Strat.
     | O => Oof
     | S n' =>
       match ts with
-      | TNot :: rest => '(e, r) <- g_not_loop n' rest ;; Ok (ENot e, r)
-      | _ => g_comparison ts
+      | t :: rest => if tok_is_not t then '(e, r) <- g_not_loop n' rest ;; Ok (ENot e, r) else g_comparison ts
+      | [] => g_comparison ts
       end
     end.
   Definition g_not_test (ts : toks) : pres := g_not_loop (S (List.length ts)) ts.
